@@ -151,6 +151,9 @@ def getPrintTable (j : Json) (k : String) : D (List (String × Option (List Nat)
 def handleSchema (j : Json) : D Json := do
   let v ← getV (← fld j "v")
   let tvs ← natList j "typeVids"
+  let nrs ← match fldOpt j "nonRecurrent" with
+    | some _ => natList j "nonRecurrent"
+    | none => pure []
   let prj := match fldOpt j "printer" with | some o => o | none => Json.mkObj []
   let strT ← getPrintTable prj "str"
   let isoT ← getPrintTable prj "iso"
@@ -166,7 +169,7 @@ def handleSchema (j : Json) : D Json := do
   let nameOpt : Option (List Nat) ← match fldOpt j "named" with
     | none => pure none
     | some n => do pure (some (← natList n "name"))
-  match toSchema pr ctx tvs v with
+  match toSchema pr ctx tvs nrs v with
   | .ok s =>
     let s' : J := match nameOpt with
       | none => s
